@@ -1,8 +1,21 @@
 import Driver.Ops
+import Driver.OpsDirective
+import Driver.OpsExample
+import Driver.OpsParser
+import Driver.OpsImport
+import Driver.OpsStatic
+import Driver.OpsRunner
+import Driver.OpsFormat
+import Driver.OpsStdlib
+import Driver.OpsLines
 open Xdoc.Driver
 
+def opTables : List (List String → Option String) :=
+  [opsChecker, opsDirective, opsExample, opsParser, opsImport, opsStatic, opsRunner, opsFormat,
+   opsStdlib, opsLines]
+
 def dispatch (fields : List String) : String :=
-  match opsChecker fields with
+  match opTables.findSome? (fun t => t fields) with
   | some r => r
   | none => "bad-op"
 
